@@ -49,7 +49,7 @@ pub fn file_hash(p: &Path) -> std::io::Result<(u64, u64)> {
 			break
 		}
 		// align down to the block grid so that block boundaries are layout independent
-		let data = data - data % BLOCK as i64;
+		let data = (data - data % BLOCK as i64).max(pos - pos % BLOCK as i64);
 		let hole = unsafe { libc::lseek(fd, data.max(pos), libc::SEEK_HOLE) };
 		let end = if hole < 0 { len as i64 } else { hole.min(len as i64) };
 		f.seek(SeekFrom::Start(data as u64))?;
